@@ -2204,6 +2204,13 @@ func (s *swamp) SaveFunction(t treasure.Treasure, guardID guard.ID) treasure.Tre
 				t.BodySetFileName(guardID, *fileName)
 			}
 		}
+		// The writer may have obtained this treasure object before a concurrent Delete/Shift of the
+		// key removed it, and saves it only now. The save creates the key anew, so the deletion mark
+		// the removal left on the object must go: otherwise the chronicler persists this and every
+		// later save of the key as a delete entry and the key is gone after the swamp is reopened.
+		if t.GetDeletedAt() > 0 {
+			t.BodySetKey(guardID, t.GetKey())
+		}
 		s.treasuresWaitingForWriter.Delete(t.GetKey())
 
 		// add the treasure to the treasuresWaitingForWriter index
